@@ -154,7 +154,7 @@ func main() {
 	devnull, _ := os.OpenFile(os.DevNull, os.O_WRONLY, 0)
 	os.Stderr = devnull
 	rng := hx.NewRng(args.Seed)
-	meta.Rule = "2-3 goroutines calling Channel.Write concurrently under the hook scheduler; message types []byte, [][]byte, *bytes.Buffer, strings.Reader, bytes.Reader (sizes 2..5000, across the 1024-byte streaming chunk), io.Reader below / above the chunk, string through delimiter+text codecs, []byte through a length-field codec; sync and async channels; random and sticky schedules; non-trivial = the schedule switched goroutines while a message was being written; distinct = distinct (scenario, schedule)"
+	meta.Rule = "2-3 goroutines calling Channel.Write concurrently under the hook scheduler; message types []byte, [][]byte, *bytes.Buffer, strings.Reader, bytes.Reader (sizes 2..5000 across the 1024-byte streaming chunk, and 65536/65537/140000 around the largest pooled size class), io.Reader below / above the chunk, string through delimiter+text codecs, []byte through a length-field codec; sync and async channels; random and sticky schedules; non-trivial = the schedule switched goroutines while a message was being written; distinct = distinct (scenario, schedule)"
 	if args.Replay != "" {
 		var rp struct {
 			Scenario scenario `json:"scenario"`
@@ -224,6 +224,9 @@ func main() {
 		}
 		if sc.Pipe == "lenfield" {
 			sc.Kind = []string{"bytes", "buffer", "stringsreader"}[rng.Intn(3)]
+		}
+		if sc.Pipe == "none" && sc.Kind != "reader-small" && rng.Chance(8) {
+			sc.Size = []int{65536, 65537, 140000}[rng.Intn(3)] // around and beyond the largest pooled size class
 		}
 		switch rng.Intn(12) {
 		case 0:
